@@ -511,6 +511,183 @@ fn w_import_shading() -> bool {
     !text.contains("ShadingType")
 }
 
+// ---- hostile graphs / numbers (C01, C14): each of these ends the process (stack overflow) or panics when the defect is present
+
+fn load(objs: &[(u64, &str)]) -> pdf::file::File<Vec<u8>, pdf::file::NoCache, pdf::file::NoCache, pdf::file::NoLog> {
+    let mut v = vec![(1, CATALOG), (2, PAGES), (3, PAGE)];
+    v.extend_from_slice(objs);
+    pdf::file::FileOptions::uncached().load(mkpdf(&v, "")).unwrap()
+}
+fn short<T>(r: Result<T, pdf::error::PdfError>) -> Result<T, String> {
+    r.map_err(|e| e.to_string().chars().take(70).collect::<String>())
+}
+
+fn w_ref_chain() -> bool {
+    use pdf::object::*;
+    let file = load(&[(5, "5 0 R")]);
+    let r = file.resolver();
+    let d = pdf::primitive::Dictionary::from_primitive(pdf::primitive::Primitive::Reference(PlainRef { id: 5, gen: 0 }), &r);
+    println!("dictionary read through `5 0 obj 5 0 R endobj` -> {:?}", short(d.map(|_| ())));
+    false
+}
+fn w_nametree_cycle() -> bool {
+    use pdf::object::*;
+    let file = load(&[(5, "<< /Kids [5 0 R] >>")]);
+    let r = file.resolver();
+    let t = NameTree::<pdf::primitive::Primitive>::from_primitive(pdf::primitive::Primitive::Reference(PlainRef { id: 5, gen: 0 }), &r);
+    let t = match t { Ok(t) => t, Err(e) => { println!("load failed: {}", e); return false; } };
+    let mut n = 0;
+    let w = t.walk(&r, &mut |_, _| n += 1);
+    println!("walk of a name tree whose /Kids contains itself -> {:?}", short(w));
+    false
+}
+fn w_devicen_cycle() -> bool {
+    use pdf::object::*;
+    let file = load(&[(5, "[/DeviceN [/A] 5 0 R 6 0 R]")]);
+    let r = file.resolver();
+    let c = ColorSpace::from_primitive(pdf::primitive::Primitive::Reference(PlainRef { id: 5, gen: 0 }), &r);
+    println!("DeviceN colour space whose alternate is itself -> {:?}", short(c.map(|_| ())));
+    false
+}
+fn w_appearance_cycle() -> bool {
+    use pdf::object::*;
+    let file = load(&[(5, "<< /A 5 0 R >>")]);
+    let r = file.resolver();
+    let c = AppearanceStreamEntry::from_primitive(pdf::primitive::Primitive::Reference(PlainRef { id: 5, gen: 0 }), &r);
+    println!("appearance dictionary that contains itself -> {:?}", short(c.map(|_| ())));
+    false
+}
+fn w_function_domain() -> bool {
+    use pdf::object::*;
+    let p = pdf::parser::parse(b"<< /FunctionType 2 /Domain [] /N 1 /C0 [0] /C1 [1] >>", &NoResolve, pdf::parser::ParseFlags::ANY).unwrap();
+    let f = Function::from_primitive(p, &NoResolve);
+    println!("exponential function with an empty /Domain -> {:?}", short(f.map(|_| ())));
+    false
+}
+fn w_function_dims() -> bool {
+    use pdf::object::*;
+    let p = pdf::parser::parse(b"<< /FunctionType 2 /Domain [0 1] /N 1 /C0 [0 0] /C1 [1 1] >>", &NoResolve, pdf::parser::ParseFlags::ANY).unwrap();
+    let f = Function::from_primitive(p, &NoResolve).unwrap();
+    println!("dimensions of an exponential function: {} -> {}", f.input_dim(), f.output_dim());
+    false
+}
+fn w_flate_geometry() -> bool {
+    let mut z = libflate::zlib::Encoder::new(Vec::new()).unwrap();
+    std::io::Write::write_all(&mut z, b"\x00abcdefgh").unwrap();
+    let zdata = z.finish().into_result().unwrap();
+    let params = LZWFlateParams { predictor: 12, n_components: 3, bits_per_component: 8, columns: -1, early_change: 1 };
+    let got = decode(&zdata, &StreamFilter::FlateDecode(params));
+    println!("/Predictor 12 /Colors 3 /Columns -1 -> {:?}", short(got.map(|v| v.len())));
+    false
+}
+fn w_fax_zero_columns() -> bool {
+    let params = CCITTFaxDecodeParams { k: -1, end_of_line: false, encoded_byte_align: false, columns: 0, rows: 0, end_of_block: true, black_is_1: false, damaged_rows_before_error: 0 };
+    let got = fax_decode(&[0u8, 1, 2, 3], &params);
+    println!("CCITT G4 with /Columns 0 -> {:?}", short(got.map(|v| v.len())));
+    false
+}
+fn w_fax_capacity() -> bool {
+    let params = CCITTFaxDecodeParams { k: -1, end_of_line: false, encoded_byte_align: false, columns: 4000000000, rows: 4000000000, end_of_block: true, black_is_1: false, damaged_rows_before_error: 0 };
+    let got = fax_decode(&[0u8, 1, 2, 3], &params);
+    println!("CCITT G4 with /Columns 4000000000 /Rows 4000000000 -> {:?}", short(got.map(|v| v.len())));
+    false
+}
+fn font_from(src: &[u8]) -> pdf::font::Font {
+    use pdf::object::*;
+    let p = pdf::parser::parse(src, &NoResolve, pdf::parser::ParseFlags::ANY).unwrap();
+    pdf::font::Font::from_primitive(p, &NoResolve).unwrap()
+}
+const CIDFONT: &str = "/Type /Font /Subtype /CIDFontType2 /BaseFont /X /CIDSystemInfo << /Registry (Adobe) /Ordering (Identity) /Supplement 0 >> /FontDescriptor << /Type /FontDescriptor /FontName /X /Flags 4 /FontBBox [0 0 1 1] /ItalicAngle 0 /Ascent 1 /Descent 0 /CapHeight 1 /StemV 1 >>";
+fn w_widths_empty_group() -> bool {
+    let f = font_from(format!("<< {} /W [0 []] >>", CIDFONT).as_bytes());
+    let w = f.widths(&pdf::object::NoResolve);
+    println!("/W [0 []] -> {:?}", short(w.map(|w| w.map(|w| w.get(0)))));
+    false
+}
+fn w_widths_huge_cid() -> bool {
+    // before the fix this asks for 8 GB (`/W [0 [1] 2000000000 [1]]`) or loops for hours (`/W [0 2000000000 1]`)
+    let f = font_from(format!("<< {} /W [0 [1] 2000000000 [1]] >>", CIDFONT).as_bytes());
+    let w = f.widths(&pdf::object::NoResolve);
+    println!("/W [0 [1] 2000000000 [1]] -> {:?}", short(w.map(|w| w.map(|w| w.get(0)))));
+    false
+}
+fn w_descendant_empty() -> bool {
+    let f = font_from(b"<< /Type /Font /Subtype /Type0 /BaseFont /X /Encoding /Identity-H /DescendantFonts [] >>");
+    let w = f.widths(&pdf::object::NoResolve);
+    println!("Type0 font with /DescendantFonts [] -> widths {:?}", short(w.map(|w| w.is_some())));
+    false
+}
+fn w_encoding_diff() -> bool {
+    use pdf::object::*;
+    let p = pdf::parser::parse(b"<< /Differences [-1 /a /b] >>", &NoResolve, pdf::parser::ParseFlags::ANY).unwrap();
+    let e = pdf::encoding::Encoding::from_primitive(p, &NoResolve);
+    println!("/Differences [-1 /a /b] -> {:?}", short(e.map(|e| e.differences.len())));
+    false
+}
+fn w_page_count_overflow() -> bool {
+    let kids = "<< /Type /Pages /Parent 2 0 R /Count 2147483647 /Kids [] >>";
+    let pages = "<< /Type /Pages /Count 3 /Kids [5 0 R 6 0 R 7 0 R 3 0 R] >>";
+    let data = mkpdf(&[(1, CATALOG), (2, pages), (3, PAGE), (5, kids), (6, kids), (7, kids)], "");
+    let file = pdf::file::FileOptions::uncached().load(data).unwrap();
+    let p = file.get_root().pages.page(&file.resolver(), u32::MAX);
+    println!("page tree whose /Count entries add up to more than 2^32 -> {:?}", short(p.map(|_| ())));
+    false
+}
+fn w_objstm_offset_overflow() -> bool {
+    use pdf::object::*;
+    // object stream 5 declares object 4 at offset 2^64-1
+    let body = "4 18446744073709551615 3";
+    let stm = format!("<< /Type /ObjStm /N 1 /First 23 /Length {} >>\nstream\n{}\nendstream", body.len(), body);
+    let file = load(&[(5, stm.as_str())]);
+    let r = file.resolver();
+    let os = match r.get::<pdf::object::ObjectStream>(Ref::from_id(5)) { Ok(o) => o, Err(e) => { println!("load failed: {}", e); return false; } };
+    let s = os.get_object_slice(0, &r);
+    println!("object stream with offset 2^64-1 and /First 23 -> {:?}", short(s.map(|(_, r)| r)));
+    false
+}
+fn w_xref_offset_overflow() -> bool {
+    use pdf::object::*;
+    let mut data = mkpdf(&[(1, CATALOG), (2, PAGES), (3, PAGE), (5, "null")], "");
+    let pos5 = data.windows(7).position(|w| w == b"5 0 obj").unwrap();
+    let entry = format!("{:010} {:05} n", pos5, 0);
+    let at = data.windows(entry.len()).position(|w| w == entry.as_bytes()).unwrap();
+    data.splice(at .. at + entry.len(), b"18446744073709551615 00000 n".iter().cloned());
+    let mut junk = b"junk\n".to_vec();
+    junk.extend_from_slice(&data);
+    let file = pdf::file::FileOptions::uncached().load(junk).unwrap();
+    let r = file.resolver().resolve(PlainRef { id: 5, gen: 0 });
+    println!("xref entry with offset 2^64-1 in a file with 5 bytes before the header -> {:?}", short(r.map(|_| ())));
+    false
+}
+/// known finding (C14): the process dies with a stack overflow
+fn w_jbig2_globals_cycle() -> bool {
+    use pdf::object::*;
+    let file = load(&[(5, "<< /Length 0 /Filter /JBIG2Decode /DecodeParms << /JBIG2Globals 5 0 R >> >>\nstream\n\nendstream")]);
+    let r = file.resolver();
+    let s = Stream::<()>::from_primitive(pdf::primitive::Primitive::Reference(PlainRef { id: 5, gen: 0 }), &r);
+    println!("JBIG2 stream whose /JBIG2Globals is the stream itself -> {:?}", short(s.map(|_| ())));
+    false
+}
+/// known finding (C14): the process dies with a stack overflow
+fn w_descendant_fonts_cycle() -> bool {
+    use pdf::object::*;
+    let font = "<< /Type /Font /Subtype /Type0 /BaseFont /X /Encoding /Identity-H /DescendantFonts 7 0 R >>";
+    let arr = format!("[ {} ]", font);
+    let file = load(&[(7, arr.as_str())]);
+    let r = file.resolver();
+    let p = pdf::parser::parse(font.as_bytes(), &NoResolve, pdf::parser::ParseFlags::ANY).unwrap();
+    let f = pdf::font::Font::from_primitive(p, &r);
+    println!("Type0 font whose /DescendantFonts array (an indirect object) contains the font dictionary itself -> {:?}", short(f.map(|_| ())));
+    false
+}
+fn w_crypt_keylen() -> bool {
+    let enc = "<< /Filter /Standard /V 2 /R 3 /Length 0 /P -1 /O (01234567890123456789012345678901) /U (01234567890123456789012345678901) >>";
+    let data = mkpdf(&[(1, CATALOG), (2, PAGES), (3, PAGE), (9, enc)], "/Encrypt 9 0 R /ID [(abcdefghijklmnop) (abcdefghijklmnop)]");
+    let f = pdf::file::FileOptions::uncached().load(data);
+    println!("/Encrypt with /V 2 /Length 0 -> {:?}", short(f.map(|_| ())));
+    false
+}
+
 fn main() {
     let all: Vec<(&str, fn() -> bool)> = vec![
         ("lzw_predictor", w_lzw_predictor),
@@ -537,6 +714,25 @@ fn main() {
         ("import_rcref_unwrap", w_import_rcref_unwrap),
         ("import_colorspace", w_import_colorspace),
         ("import_shading", w_import_shading),
+        ("ref_chain", w_ref_chain),
+        ("nametree_cycle", w_nametree_cycle),
+        ("devicen_cycle", w_devicen_cycle),
+        ("appearance_cycle", w_appearance_cycle),
+        ("function_domain", w_function_domain),
+        ("function_dims", w_function_dims),
+        ("flate_geometry", w_flate_geometry),
+        ("fax_zero_columns", w_fax_zero_columns),
+        ("fax_capacity", w_fax_capacity),
+        ("widths_empty_group", w_widths_empty_group),
+        ("widths_huge_cid", w_widths_huge_cid),
+        ("descendant_empty", w_descendant_empty),
+        ("encoding_diff", w_encoding_diff),
+        ("page_count_overflow", w_page_count_overflow),
+        ("objstm_offset_overflow", w_objstm_offset_overflow),
+        ("crypt_keylen", w_crypt_keylen),
+        ("jbig2_globals_cycle", w_jbig2_globals_cycle),
+        ("descendant_fonts_cycle", w_descendant_fonts_cycle),
+        ("xref_offset_overflow", w_xref_offset_overflow),
     ];
     let want: Vec<String> = std::env::args().skip(1).collect();
     for (n, f) in all {
